@@ -1,4 +1,477 @@
-//! direct property oracles on the implementation for the element-tree properties (filled in below)
-pub fn oracle_main(_args: &[String]) {
-    println!("STAT oracle not implemented yet");
+//! Direct property oracles on the IMPLEMENTATION for the element-tree properties (C03, C04, C05, C06, C11, C12):
+//! each is a statement of the property in terms of the public API only (independent walks of the tree), evaluated
+//! after every operation of a script.  Used for the failing-input search and as an independent detector; it never
+//! consults the Coq model.
+//!   avh tree oracle <dump> <script>      prints  FAIL <prop> script=<k> step=<i> op=<opname> kind=<kind> <detail>
+use crate::tree::*;
+use crate::util::*;
+use autosar_data::*;
+use std::collections::{BTreeMap, HashMap, HashSet};
+use std::sync::mpsc;
+
+fn preorder(e: &Element, depth: usize, maxd: usize, out: &mut Vec<(usize, Element)>) {
+    out.push((depth, e.clone()));
+    if depth > 300 {
+        return;
+    }
+    if maxd == 0 || depth < maxd {
+        for s in e.sub_elements() {
+            preorder(&s, depth + 1, maxd, out);
+        }
+    }
+}
+
+fn file_preorder(e: &Element, depth: usize, maxd: usize, f: &ArxmlFile, out: &mut Vec<(usize, Element)>) {
+    // the element is produced only if its LOCAL membership is empty or contains the file; otherwise the whole subtree is skipped
+    let local = match e.file_membership() {
+        Ok((true, s)) => Some(s),
+        _ => None,
+    };
+    if let Some(s) = &local {
+        if !s.contains(&f.downgrade()) {
+            return;
+        }
+    }
+    out.push((depth, e.clone()));
+    if depth > 300 {
+        return;
+    }
+    if maxd == 0 || depth < maxd {
+        for s in e.sub_elements() {
+            file_preorder(&s, depth + 1, maxd, f, out);
+        }
+    }
+}
+
+struct Live {
+    reach: Vec<HashSet<Element>>, // per model
+}
+
+fn live(ex: &Exec) -> Live {
+    let mut reach = vec![];
+    for m in &ex.models {
+        let mut v = vec![];
+        preorder(&m.root_element(), 0, 0, &mut v);
+        reach.push(v.into_iter().map(|x| x.1).collect());
+    }
+    Live { reach }
+}
+
+/// digest of the live part of the state (no per-handle lines)
+fn live_digest(ex: &Exec) -> u64 {
+    let mut h = Hasher::new();
+    ex.observe(&mut |s: &str| {
+        if !s.starts_with("H ") {
+            h.line(s)
+        }
+    });
+    h.h
+}
+fn full_digest(ex: &Exec) -> u64 {
+    let mut h = Hasher::new();
+    ex.observe(&mut |s: &str| h.line(s));
+    h.h
+}
+
+fn opname(op: &Op) -> String {
+    op.line().split_whitespace().nth(1).unwrap_or("?").to_string()
+}
+
+fn principal(op: &Op) -> Option<usize> {
+    use Op::*;
+    match op {
+        CreateSub(h, _) | CreateSubAt(h, _, _) | CreateNamed(h, _, _) | CreateNamedAt(h, _, _, _) | Copy(h, _) | CopyAt(h, _, _)
+        | Move(h, _) | MoveAt(h, _, _) | Remove(h, _) | RemoveKind(h, _) | SetItemName(h, _) | SetCData(h, _) | RemoveCData(h)
+        | InsertCItem(h, _, _) | RemoveCItem(h, _) | SetRefTarget(h, _) | SetAttr(h, _, _) | RemoveAttr(h, _) | SetComment(h, _)
+        | GetOrCreate(h, _) | GetOrCreateNamed(h, _, _) | AddToFile(h, _) | RemoveFromFile(h, _) | Sort(h) | SerializeElem(h) => Some(*h),
+        _ => None,
+    }
+}
+
+struct RefSnap {
+    r: Element,
+    text: String,
+    target: Option<Element>,
+}
+
+fn ref_snapshot(ex: &Exec, lv: &Live) -> Vec<(usize, RefSnap)> {
+    let mut v = vec![];
+    for (mi, m) in ex.models.iter().enumerate() {
+        for e in &lv.reach[mi] {
+            if e.is_reference() {
+                if let Some(CharacterData::String(t)) = e.character_data() {
+                    let target = m.get_element_by_path(&t);
+                    v.push((mi, RefSnap { r: e.clone(), text: t, target }));
+                }
+            }
+        }
+    }
+    v
+}
+
+fn is_below(x: &Element, e: &Element) -> bool {
+    let mut cur = Some(x.clone());
+    let mut n = 0;
+    while let Some(c) = cur {
+        if c == *e {
+            return true;
+        }
+        n += 1;
+        if n > 400 {
+            return false;
+        }
+        cur = c.parent().ok().flatten();
+    }
+    false
+}
+
+fn check_state(ex: &Exec, fails: &mut Vec<(String, String, String)>) {
+    let lv = live(ex);
+    // ---------------- C03: tree shape and navigation
+    for (mi, m) in ex.models.iter().enumerate() {
+        let root = m.root_element();
+        let mut pre = vec![];
+        preorder(&root, 0, 0, &mut pre);
+        let mut seen: HashSet<Element> = HashSet::new();
+        for (_, e) in &pre {
+            if !seen.insert(e.clone()) {
+                fails.push(("C03".into(), "element-listed-twice".into(), ex.hnum(e)));
+            }
+            for (k, item) in e.content().enumerate() {
+                if let ElementContent::Element(c) = item {
+                    match c.parent() {
+                        Ok(Some(p)) if p == *e => {}
+                        _ => fails.push(("C03".into(), "child-parent-mismatch".into(), format!("{} in {}", ex.hnum(&c), ex.hnum(e)))),
+                    }
+                    if c.position() != Some(k) {
+                        fails.push(("C03".into(), "position-mismatch".into(), format!("{} reports {:?} is at {}", ex.hnum(&c), c.position(), k)));
+                    }
+                    if e.get_sub_element_at(k).as_ref() != Some(&c) {
+                        fails.push(("C03".into(), "get_sub_element_at-mismatch".into(), ex.hnum(&c)));
+                    }
+                    match c.model() {
+                        Ok(mm) if mm == *m => {}
+                        _ => fails.push(("C03".into(), "child-model-mismatch".into(), ex.hnum(&c))),
+                    }
+                }
+            }
+        }
+        // iterators
+        for maxd in [0usize, 1, 2, 3] {
+            let mut exp = vec![];
+            preorder(&root, 0, maxd, &mut exp);
+            let got: Vec<(usize, Element)> = if maxd == 0 { m.elements_dfs().collect() } else { m.elements_dfs_with_max_depth(maxd).collect() };
+            if exp != got {
+                fails.push(("C03".into(), format!("model-dfs-maxdepth{}", maxd), format!("model {} expected {} got {}", mi, exp.len(), got.len())));
+            }
+        }
+        // element-scoped iterators on a few elements
+        for (_, e) in pre.iter().take(40) {
+            for maxd in [0usize, 2] {
+                let mut exp = vec![];
+                preorder(e, 0, maxd, &mut exp);
+                let got: Vec<(usize, Element)> = if maxd == 0 { e.elements_dfs().collect() } else { e.elements_dfs_with_max_depth(maxd).collect() };
+                if exp != got {
+                    fails.push(("C03".into(), format!("element-dfs-maxdepth{}", maxd), ex.hnum(e)));
+                }
+            }
+        }
+        for f in m.files() {
+            for maxd in [0usize, 2] {
+                let mut exp = vec![];
+                file_preorder(&root, 0, maxd, &f, &mut exp);
+                let got: Vec<(usize, Element)> = if maxd == 0 { f.elements_dfs().collect() } else { f.elements_dfs_with_max_depth(maxd).collect() };
+                if exp != got {
+                    fails.push(("C03".into(), format!("file-dfs-maxdepth{}", maxd), format!("model {} expected {} got {}", mi, exp.len(), got.len())));
+                }
+            }
+        }
+    }
+    // stale handles: every place-dependent request fails
+    let all_live: HashSet<&Element> = lv.reach.iter().flat_map(|s| s.iter()).collect();
+    for e in &ex.handles {
+        if !all_live.contains(e) {
+            let mut bad = vec![];
+            if e.parent().is_ok() {
+                bad.push("parent");
+            }
+            if e.model().is_ok() {
+                bad.push("model");
+            }
+            if e.path().is_ok() {
+                bad.push("path");
+            }
+            if e.file_membership().is_ok() {
+                bad.push("file_membership");
+            }
+            if !bad.is_empty() {
+                fails.push(("C03".into(), "stale-handle-answers".into(), format!("{} {}", ex.hnum(e), bad.join("+"))));
+            }
+        }
+    }
+    // ---------------- C04: index == paths computed from the tree
+    for (mi, m) in ex.models.iter().enumerate() {
+        let mut computed: BTreeMap<String, Vec<Element>> = BTreeMap::new();
+        fn walk(e: &Element, prefix: &str, depth: usize, computed: &mut BTreeMap<String, Vec<Element>>, fails: &mut Vec<(String, String, String)>, hn: &dyn Fn(&Element) -> String) {
+            let mut p = prefix.to_string();
+            if e.is_identifiable() {
+                if let Some(n) = e.item_name() {
+                    p = format!("{}/{}", prefix, n);
+                }
+                computed.entry(p.clone()).or_default().push(e.clone());
+                match e.path() {
+                    Ok(ep) if ep == p => {}
+                    other => fails.push(("C04".into(), "own-path-mismatch".into(), format!("{} path()={:?} tree says {}", hn(e), other.ok(), p))),
+                }
+            }
+            if depth < 300 {
+                for s in e.sub_elements() {
+                    walk(&s, &p, depth + 1, computed, fails, hn);
+                }
+            }
+        }
+        let hn = |e: &Element| ex.hnum(e);
+        walk(&m.root_element(), "", 0, &mut computed, fails, &hn);
+        for (p, els) in &computed {
+            if els.len() > 1 {
+                fails.push(("C04".into(), "duplicate-path".into(), format!("model {} {} x{}", mi, p, els.len())));
+            }
+        }
+        let mut index: BTreeMap<String, Vec<Option<Element>>> = BTreeMap::new();
+        for (p, w) in m.identifiable_elements() {
+            index.entry(p).or_default().push(w.upgrade());
+        }
+        for (p, l) in &index {
+            if l.len() > 1 {
+                fails.push(("C04".into(), "index-key-twice".into(), p.clone()));
+            }
+            match computed.get(p) {
+                None => fails.push(("C04".into(), "stale-index-entry".into(), format!("model {} {}", mi, p))),
+                Some(els) => {
+                    if !l.iter().any(|x| x.as_ref().map(|y| els.contains(y)).unwrap_or(false)) {
+                        fails.push(("C04".into(), "index-entry-wrong-element".into(), format!("model {} {}", mi, p)));
+                    }
+                }
+            }
+        }
+        for (p, els) in &computed {
+            if !index.contains_key(p) {
+                fails.push(("C04".into(), "missing-index-entry".into(), format!("model {} {}", mi, p)));
+            }
+            let got = m.get_element_by_path(p);
+            if !got.as_ref().map(|g| els.contains(g)).unwrap_or(false) {
+                fails.push(("C04".into(), "lookup-mismatch".into(), format!("model {} {}", mi, p)));
+            }
+        }
+        for p in &ex.probes {
+            if !computed.contains_key(p) && m.get_element_by_path(p).is_some() {
+                fails.push(("C04".into(), "lookup-finds-nonexistent".into(), format!("model {} {}", mi, p)));
+            }
+        }
+        // ---------------- C05: referrer lists and the invalid-reference report
+        let mut expected: BTreeMap<String, Vec<Element>> = BTreeMap::new();
+        let mut all_refs: Vec<Element> = vec![];
+        for e in &lv.reach[mi] {
+            if e.is_reference() {
+                if let Some(CharacterData::String(t)) = e.character_data() {
+                    expected.entry(t).or_default().push(e.clone());
+                    all_refs.push(e.clone());
+                }
+            }
+        }
+        let mut keys: Vec<String> = expected.keys().cloned().collect();
+        for p in &ex.probes {
+            if !keys.contains(p) {
+                keys.push(p.clone());
+            }
+        }
+        for p in &keys {
+            let mut got: Vec<usize> = m.get_references_to(p).iter().filter_map(|w| w.upgrade()).map(|e| ex.hidx.get(&e).copied().unwrap_or(usize::MAX)).collect();
+            let mut exp: Vec<usize> = expected.get(p).map(|v| v.iter().map(|e| ex.hidx.get(e).copied().unwrap_or(usize::MAX)).collect()).unwrap_or_default();
+            got.sort();
+            exp.sort();
+            if got != exp {
+                let kind = if got.len() > exp.len() { "referrer-list-extra" } else if got.len() < exp.len() { "referrer-list-missing" } else { "referrer-list-differs" };
+                fails.push(("C05".into(), kind.into(), format!("model {} {} got {:?} expected {:?}", mi, p, got, exp)));
+            }
+        }
+        let broken: HashSet<Element> = m.check_references().iter().filter_map(|w| w.upgrade()).collect();
+        for r in &all_refs {
+            let t = match r.character_data() {
+                Some(CharacterData::String(t)) => t,
+                _ => continue,
+            };
+            let ok = match m.get_element_by_path(&t) {
+                None => false,
+                Some(target) => match r.attribute_value(AttributeName::Dest) {
+                    Some(CharacterData::Enum(d)) => target.element_type().verify_reference_dest(d),
+                    _ => false,
+                },
+            };
+            if ok == broken.contains(r) {
+                fails.push(("C05".into(), if ok { "valid-reference-reported".into() } else { "broken-reference-not-reported".into() }, ex.hnum(r)));
+            }
+            if r.get_reference_target().is_ok() == broken.contains(r) {
+                fails.push(("C05".into(), "report-vs-resolve".into(), ex.hnum(r)));
+            }
+        }
+        for b in &broken {
+            if !lv.reach[mi].contains(b) {
+                fails.push(("C05".into(), "report-lists-element-outside-model".into(), ex.hnum(b)));
+            }
+        }
+    }
+}
+
+fn run_oracle_script(dump: String, probes: Vec<String>, ops: Vec<Op>, tx: mpsc::Sender<Option<String>>) {
+    let names = Names::load(&dump);
+    let mut ex = Exec::new(&names);
+    ex.probes = probes.into_iter().filter(|p| !p.starts_with('\u{1}')).collect();
+    for (step, op) in ops.iter().enumerate() {
+        let _ = tx.send(Some(format!("@{} {}", step, opname(op))));
+        let r = guard(|| {
+            let mut out: Vec<String> = vec![];
+            let before_full = full_digest(&ex);
+            let before_live = live_digest(&ex);
+            let lv = live(&ex);
+            let stale_principal = principal(op).map(|h| !lv.reach.iter().any(|s| s.contains(&ex.handles[h]))).unwrap_or(false);
+            let refs_before = ref_snapshot(&ex, &lv);
+            let orphans_before = ex.handles.iter().filter(|e| !lv.reach.iter().any(|s| s.contains(*e)) && e.model().is_ok()).count();
+            let subject: Option<Element> = match op {
+                Op::SetItemName(h, _) => Some(ex.handles[*h].clone()),
+                Op::Move(_, mv) | Op::MoveAt(_, mv, _) => Some(ex.handles[*mv].clone()),
+                _ => None,
+            };
+            let subject_model = subject.as_ref().and_then(|s| s.model().ok());
+            let res = ex.apply(op);
+            out.push(format!("RES {}", res));
+            if res == "R PANIC" {
+                out.push(format!("FAIL C12 step={} op={} kind=panic -", step, opname(op)));
+                return (out, true);
+            }
+            if res.contains("ParentElementLocked") {
+                out.push(format!("FAIL C12 step={} op={} kind=spurious-parent-locked -", step, opname(op)));
+            }
+            if res.starts_with("R ERR") {
+                let after = full_digest(&ex);
+                if after != before_full {
+                    out.push(format!("FAIL C11 step={} op={} kind=state-changed-after-error {}", step, opname(op), res));
+                }
+            }
+            if stale_principal {
+                let after = live_digest(&ex);
+                if after != before_live {
+                    out.push(format!("FAIL C03 step={} op={} kind=stale-handle-changed-live-model {}", step, opname(op), res));
+                }
+            }
+            // C06: references follow their target
+            if let (Some(subj), true) = (&subject, res.starts_with("R OK")) {
+                let same_model_move = match op {
+                    Op::Move(d, _) | Op::MoveAt(d, _, _) => ex.handles[*d].model().ok() == subject_model,
+                    _ => true,
+                };
+                for (mi, snap) in &refs_before {
+                    let now_text = match snap.r.character_data() {
+                        Some(CharacterData::String(t)) => t,
+                        _ => String::new(),
+                    };
+                    let followed = snap.target.as_ref().map(|x| is_below(x, subj)).unwrap_or(false);
+                    if followed && same_model_move {
+                        let now_target = ex.models[*mi].get_element_by_path(&now_text);
+                        if now_target != snap.target {
+                            out.push(format!("FAIL C06 step={} op={} kind=reference-lost-its-target {} text {} -> {}", step, opname(op), ex.hnum(&snap.r), snap.text, now_text));
+                        }
+                    } else if !followed && now_text != snap.text && (same_model_move || !is_below(&snap.r, subj)) {
+                        let kind = if snap.target.is_none() { "dangling-reference-rewritten" } else { "unrelated-reference-rewritten" };
+                        out.push(format!("FAIL C06 step={} op={} kind={} {} text {} -> {}", step, opname(op), kind, ex.hnum(&snap.r), snap.text, now_text));
+                    }
+                }
+            }
+            {
+                let lv2 = live(&ex);
+                let n_orphans = ex.handles.iter().filter(|e| !lv2.reach.iter().any(|s| s.contains(*e)) && e.model().is_ok()).count();
+                if n_orphans > orphans_before {
+                    out.push(format!("TAINT orphans-by-{}", opname(op)));
+                }
+            }
+            let mut fails = vec![];
+            check_state(&ex, &mut fails);
+            for (p, k, d) in fails {
+                out.push(format!("FAIL {} step={} op={} kind={} {}", p, step, opname(op), k, d));
+            }
+            (out, false)
+        });
+        match r {
+            Ok((lines, stop)) => {
+                for l in lines {
+                    let _ = tx.send(Some(l));
+                }
+                if stop {
+                    break;
+                }
+            }
+            Err(_) => {
+                let _ = tx.send(Some(format!("FAIL C12 step={} op={} kind=panic-in-query -", step, opname(op))));
+                break;
+            }
+        }
+    }
+    let _ = tx.send(None);
+}
+
+pub fn oracle_main(args: &[String]) {
+    let dump = args[0].clone();
+    let script = &args[1];
+    let mut nsteps = 0u64;
+    let mut nscripts = 0u64;
+    let mut nfail = 0u64;
+    let mut nerr = 0u64;
+    for (idx, probes, ops) in read_scripts(script) {
+        nscripts += 1;
+        let (tx, rx) = mpsc::channel::<Option<String>>();
+        let d = dump.clone();
+        std::thread::Builder::new().stack_size(256 * 1024 * 1024).spawn(move || run_oracle_script(d, probes, ops, tx)).unwrap();
+        let mut current = String::new();
+        // a violation is reported once per (property, kind): the FIRST step at which it shows (later steps inherit it)
+        let mut seen: HashMap<String, ()> = HashMap::new();
+        let mut taints: Vec<String> = vec![];
+        loop {
+            match rx.recv_timeout(std::time::Duration::from_millis(4000)) {
+                Ok(Some(l)) => {
+                    if let Some(rest) = l.strip_prefix('@') {
+                        current = rest.to_string();
+                        nsteps += 1;
+                    } else if let Some(rest) = l.strip_prefix("RES ") {
+                        if rest.starts_with("R ERR") {
+                            nerr += 1;
+                        }
+                    } else if let Some(t) = l.strip_prefix("TAINT ") {
+                        if !taints.contains(&t.to_string()) {
+                            taints.push(t.to_string());
+                        }
+                    } else if l.starts_with("FAIL ") {
+                        let w: Vec<&str> = l.split_whitespace().collect();
+                        let kind = w.iter().find(|x| x.starts_with("kind=")).unwrap_or(&"kind=?").to_string();
+                        let key = format!("{} {}", w[1], kind);
+                        if seen.insert(key, ()).is_none() {
+                            nfail += 1;
+                            println!("{} script={} taint={}", l, idx, if taints.is_empty() { "-".to_string() } else { taints.join(",") });
+                            taints.push(format!("{}:{}", w[1], &kind[5..]));
+                        }
+                    }
+                }
+                Ok(None) => break,
+                Err(_) => {
+                    let mut it = current.split_whitespace();
+                    let step = it.next().unwrap_or("?");
+                    let opn = it.next().unwrap_or("?");
+                    println!("FAIL C12 step={} op={} kind=hang - script={}", step, opn, idx);
+                    nfail += 1;
+                    break;
+                }
+            }
+        }
+    }
+    println!("STAT oracle scripts={} steps={} err_results={} fails={}", nscripts, nsteps, nerr, nfail);
+    std::process::exit(0);
 }
